@@ -1,7 +1,7 @@
 (* Dispatch.v -- request decoder / response encoder for the extracted model.
    One request = one S-expression (op arg ...); one response = one S-expression. *)
 From Coq Require Import String.
-From Torf Require Import Base Sexp Bencode PyVal Geometry Stream History Convert Validate Export MonList Filesize.
+From Torf Require Import Base Sexp Bencode PyVal Geometry Stream History Convert Validate Export MonList Filesize Regex UrlQuote Magnet.
 Open Scope Z_scope.
 
 Definition getFile (s : sexp) : option file := getPair getZ getZ s.
@@ -390,6 +390,58 @@ Definition handle_filesize (op : list N) (args : list sexp) : option sexp :=
     | _ => None end
   else None.
 
+(* ---- magnets (C13, C14) ---- *)
+Definition getOptB (s : sexp) : option (option bytes) :=
+  match s with A a => if atom_is "none" a then Some None else option_map Some (bytes_of_atom a) | _ => None end.
+Definition getOptZ (s : sexp) : option (option Z) :=
+  match s with A a => if atom_is "none" a then Some None else option_map Some (Z_of_dec a) | _ => None end.
+Definition optB_sexp (o : option bytes) : sexp := match o with Some b => HA b | None => Sy "none" end.
+
+Definition getMagnet (s : sexp) : option magnet :=
+  match s with
+  | L [h; dn; xl; tr; xs; a; ws; kt; x] =>
+      match getZs h, getOptB dn, getOptZ xl, getList getB tr, getOptB xs, getOptB a, getList getB ws, getList getB kt,
+            getList (getPair getB getB) x with
+      | Some h, Some dn, Some xl, Some tr, Some xs, Some a, Some ws, Some kt, Some x =>
+          Some {| m_hash := h; m_dn := dn; m_xl := xl; m_tr := tr; m_xs := xs; m_as := a; m_ws := ws; m_kt := kt; m_x := x |}
+      | _, _, _, _, _, _, _, _, _ => None end
+  | _ => None
+  end.
+
+Definition magnet_sexp (m : magnet) : sexp :=
+  L [ZL (m_hash m); optB_sexp (m_dn m); optZ_sexp (m_xl m); L (List.map HA (m_tr m)); optB_sexp (m_xs m); optB_sexp (m_as m);
+     L (List.map HA (m_ws m)); L (List.map HA (m_kt m)); L (List.map (fun p => L [HA (fst p); HA (snd p)]) (m_x m))].
+
+Definition optZL_sexp' (o : option (list Z)) : sexp := match o with Some l => ZL l | None => Sy "none" end.
+
+Definition handle_magnet (op : list N) (args : list sexp) : option sexp :=
+  if atom_is "magnet.set" op then
+    match args with
+    | [A kind; old; v] =>
+        match (match old with A a => if atom_is "none" a then Some None else None | l => option_map Some (getZs l) end), getZs v with
+        | Some old, Some v =>
+            let '(r, st) := if atom_is "xt" kind then set_xt old v else set_infohash old v in
+            Some (L [res_sexp unit_sexp r; optZL_sexp' st])
+        | _, _ => None end
+    | _ => None end
+  else if atom_is "magnet.hex" op then
+    match args with
+    | [h] => option_map (fun h => ZL (infohash_hex h)) (getZs h)
+    | _ => None end
+  else if atom_is "magnet.render" op then
+    match args with
+    | [m] => option_map (fun m => HA (render m)) (getMagnet m)
+    | _ => None end
+  else if atom_is "magnet.parse" op then
+    match args with
+    | [u] => option_map (fun u => res_sexp magnet_sexp (parse simple_is_url u)) (getB u)
+    | _ => None end
+  else if atom_is "url.quote_plus" op then
+    match args with [b] => option_map (fun b => HA (quote_plus b)) (getB b) | _ => None end
+  else if atom_is "url.unquote_plus" op then
+    match args with [b] => option_map (fun b => HA (unquote_plus b)) (getB b) | _ => None end
+  else None.
+
 Definition handle (req : sexp) : sexp :=
   match req with
   | L (A op :: args) =>
@@ -407,7 +459,11 @@ Definition handle (req : sexp) : sexp :=
                   | None =>
                       match handle_filesize op args with
                       | Some r => r
-                      | None => bad_request
+                      | None =>
+                          match handle_magnet op args with
+                          | Some r => r
+                          | None => bad_request
+                          end
                       end
                   end
               end
